@@ -1,6 +1,411 @@
-//! C10: implementation-side case runners (see props/c10.py). Stub until the property is built.
+//! C10: every place where the engine turns input-derived numbers into `char`s and input bytes into
+//! `String`s, driven through the public API.  A non-scalar `char` aborts the dev-profile process
+//! (precondition check of char::from_u32_unchecked): the driver classifies that from the way the worker dies.
+//! Every observation also carries the property's own oracle: the number of stored cells whose `ch as u32`
+//! is not a scalar value and the UTF-8 validity (std::str::from_utf8 on the bytes) of every String built.
+use crate::util::unhex;
 use crate::Obs;
+use icy_engine::{ansi, BitFont, Buffer, BufferParser, Caret, Layer, SaveOptions, TextAttribute, AttributedChar, TextPane};
+use std::path::Path;
 
-pub fn run(_kind: &str, _args: &[&str]) -> Option<Obs> {
-    None
+fn is_scalar(x: u32) -> bool {
+    x < 0xD800 || (0xE000..0x11_0000).contains(&x)
+}
+
+fn cell_code(ch: &char) -> u32 {
+    *ch as u32
+}
+
+fn str_ok(s: &str) -> i64 {
+    std::str::from_utf8(s.as_bytes()).is_ok() as i64
+}
+
+/// number of cells of all layers that do not hold a scalar value
+fn invalid_cells(buf: &Buffer) -> i64 {
+    let mut n = 0;
+    for l in &buf.layers {
+        for line in &l.lines {
+            for c in &line.chars {
+                if !is_scalar(cell_code(&c.ch)) {
+                    n += 1;
+                }
+            }
+        }
+    }
+    n
+}
+
+fn invalid_strings(buf: &Buffer) -> i64 {
+    let mut n = 0;
+    for l in &buf.layers {
+        n += 1 - str_ok(&l.properties.title);
+    }
+    for (_, f) in buf.font_iter() {
+        n += 1 - str_ok(&f.name);
+    }
+    n
+}
+
+fn term(w: i32, h: i32) -> (Buffer, Caret, ansi::Parser) {
+    let mut buf = Buffer::new((w, h));
+    buf.is_terminal_buffer = true;
+    (buf, Caret::default(), ansi::Parser::default())
+}
+
+/// feed a string; returns the number of characters the parser answered with an error
+fn feed(p: &mut ansi::Parser, buf: &mut Buffer, caret: &mut Caret, s: &str) -> i64 {
+    let mut errs = 0;
+    for ch in s.chars() {
+        if p.print_char(buf, 0, caret, ch).is_err() {
+            errs += 1;
+        }
+    }
+    errs
+}
+
+/// `CSI <text> $ x` on a fresh 80x25 terminal buffer.
+/// -> [errors, char of the first non-space cell (32 if none), number of non-space cells, min x, min y, max x, max y,
+///     invalid cells, rows, cols]
+fn fill(text: &str) -> Vec<i64> {
+    let (mut buf, mut caret, mut p) = term(80, 25);
+    let errs = feed(&mut p, &mut buf, &mut caret, &format!("\x1b[{text}$x"));
+    let rows = buf.get_line_count().max(buf.terminal_state.get_height()) as i64;
+    let cols = buf.terminal_state.get_width() as i64;
+    let (mut first, mut n, mut x0, mut y0, mut x1, mut y1) = (32i64, 0i64, i64::MAX, i64::MAX, -1i64, -1i64);
+    for (y, line) in buf.layers[0].lines.iter().enumerate() {
+        for (x, c) in line.chars.iter().enumerate() {
+            let v = cell_code(&c.ch) as i64;
+            if v != 32 {
+                if n == 0 {
+                    first = v;
+                }
+                n += 1;
+                x0 = x0.min(x as i64);
+                y0 = y0.min(y as i64);
+                x1 = x1.max(x as i64);
+                y1 = y1.max(y as i64);
+            }
+        }
+    }
+    if n == 0 {
+        x0 = -1;
+        y0 = -1;
+    }
+    vec![errs, first, n, x0, y0, x1, y1, invalid_cells(&buf), rows, cols]
+}
+
+fn layer_grid(l: &Layer, out: &mut Vec<i64>) {
+    for y in 0..l.get_height() {
+        for x in 0..l.get_width() {
+            out.push(cell_code(&l.get_char((x, y)).ch) as i64);
+        }
+    }
+}
+
+fn layer_invalid(l: &Layer) -> i64 {
+    l.lines.iter().flat_map(|ln| ln.chars.iter()).filter(|c| !is_scalar(cell_code(&c.ch))).count() as i64
+}
+
+/// Layer::from_clipboard_data -> [0] for None, [1, invalid cells, w, h, cells…] for Some
+fn clip(data: &[u8]) -> Vec<i64> {
+    match Layer::from_clipboard_data(data) {
+        None => vec![0],
+        Some(l) => {
+            let mut v = vec![1, layer_invalid(&l), l.get_width() as i64, l.get_height() as i64];
+            if (l.get_width() as i64) * (l.get_height() as i64) <= 100_000 {
+                layer_grid(&l, &mut v);
+            }
+            v
+        }
+    }
+}
+
+/// all 2^16 character values of a clipboard cell record, one 1x1 layer each
+/// -> [accepted, rejected, first rejected, last rejected, accepted whose stored char differs or is not a scalar]
+fn clip_sweep() -> Vec<i64> {
+    let (mut some, mut none, mut first, mut last, mut wrong) = (0i64, 0i64, -1i64, -1i64, 0i64);
+    for v in 0..=0xFFFFu32 {
+        let mut d = vec![0u8; 17];
+        d[9] = 1;
+        d[13] = 1;
+        d.extend([(v & 255) as u8, (v >> 8) as u8, 0, 0, 0, 0, 0, 0, 0, 0, 7, 0, 0, 0]);
+        match Layer::from_clipboard_data(&d) {
+            None => {
+                none += 1;
+                if first < 0 {
+                    first = v as i64;
+                }
+                last = v as i64;
+            }
+            Some(l) => {
+                some += 1;
+                let c = cell_code(&l.get_char((0, 0)).ch);
+                if c != v || !is_scalar(c) {
+                    wrong += 1;
+                }
+            }
+        }
+    }
+    vec![some, none, first, last, wrong]
+}
+
+/// load an .icy file -> [1] on Err; [0, invalid cells, invalid strings, n layers, (title len, title bytes…, image?,
+/// w, h, line count, cells w*h…)*, n fonts, (slot, name len, name bytes…)*]
+fn icy(data: &[u8]) -> Vec<i64> {
+    match Buffer::from_bytes(Path::new("a.icy"), true, data) {
+        Err(e) => {
+            if std::env::var("C10_DEBUG").is_ok() {
+                eprintln!("load error: {e}");
+            }
+            vec![1]
+        }
+        Ok(buf) => {
+            let mut v = vec![0, invalid_cells(&buf), invalid_strings(&buf), buf.layers.len() as i64];
+            for l in &buf.layers {
+                let t = l.properties.title.as_bytes();
+                v.push(t.len() as i64);
+                v.extend(t.iter().map(|b| *b as i64));
+                let image = matches!(l.role, icy_engine::Role::Image);
+                v.push(image as i64);
+                v.push(l.get_width() as i64);
+                v.push(l.get_height() as i64);
+                v.push(l.lines.len() as i64);
+                if !image && (l.get_width() as i64) * (l.get_height() as i64) <= 20_000 {
+                    layer_grid(l, &mut v);
+                }
+            }
+            let mut fonts: Vec<(&usize, &BitFont)> = buf.font_iter().collect();
+            fonts.sort_by_key(|(k, _)| **k);
+            v.push(fonts.len() as i64);
+            for (k, f) in fonts {
+                let t = f.name.as_bytes();
+                v.push(*k as i64);
+                v.push(t.len() as i64);
+                v.extend(t.iter().map(|b| *b as i64));
+            }
+            v
+        }
+    }
+}
+
+/// glyph `i` of the test fonts carries its own index in its first three bytes (little endian), then 0xA5 filler;
+/// fonts lower than 3 rows get a non-zero first byte instead (so that an empty glyph never equals an input glyph)
+fn glyph_data(n: usize, h: usize) -> Vec<u8> {
+    let mut d = Vec::with_capacity(n * h);
+    for i in 0..n {
+        for j in 0..h {
+            d.push(match j {
+                0 if h < 3 => 1 + (i % 255) as u8,
+                0 => (i & 255) as u8,
+                1 => ((i >> 8) & 255) as u8,
+                2 => ((i >> 16) & 255) as u8,
+                _ => 0xA5,
+            });
+        }
+    }
+    d
+}
+
+fn glyph_index(g: &[u8]) -> i64 {
+    let mut v = 0i64;
+    for (j, b) in g.iter().take(3).enumerate() {
+        v |= (*b as i64) << (8 * j);
+    }
+    v
+}
+
+/// fonts: mode psf2 | psf1 | create8 | basic | plain; n glyphs of height h; `declared` = PSF2 header length (psf2 only;
+/// -1 = n).  With declared != n the PSF2 header says charsize 0 unless declared*h + 32 == file length.
+/// -> [1] on Err; [0, length, glyph count, invalid keys, keys whose glyph is not the chunk of that index,
+///     max key, sum of keys mod 2^31, len(convert_to_u8_data), slots of it that differ from the input chunk,
+///     len(to_psf2_bytes), slots of it that differ from the input chunk, name ok]
+fn font(mode: &str, n: usize, h: usize, declared: i64) -> Vec<i64> {
+    let data = glyph_data(n, h);
+    let f = match mode {
+        "psf2" => {
+            let len = if declared < 0 { n as i64 } else { declared };
+            let charsize: u32 = if len as usize * h == data.len() { h as u32 } else { 0 };
+            let mut file = Vec::new();
+            file.extend(0x864a_b572u32.to_le_bytes());
+            file.extend(0u32.to_le_bytes());
+            file.extend(32u32.to_le_bytes());
+            file.extend(0u32.to_le_bytes());
+            file.extend((len as u32).to_le_bytes());
+            file.extend(charsize.to_le_bytes());
+            file.extend((h as u32).to_le_bytes());
+            file.extend(8u32.to_le_bytes());
+            if charsize != 0 {
+                file.extend(&data);
+            }
+            match BitFont::from_bytes("t", &file) {
+                Ok(f) => f,
+                Err(_) => return vec![1],
+            }
+        }
+        "psf1" => {
+            let mut file = vec![0x36, 0x04, 0, h as u8];
+            file.extend(&data);
+            match BitFont::from_bytes("t", &file) {
+                Ok(f) => f,
+                Err(_) => return vec![1],
+            }
+        }
+        "plain" => match BitFont::from_bytes("t", &data) {
+            Ok(f) => f,
+            Err(_) => return vec![1],
+        },
+        "create8" => BitFont::create_8("t", 8, h as u8, &data),
+        _ => BitFont::from_basic(8, h as u8, &data),
+    };
+    let mut invalid = 0i64;
+    let mut wrong = 0i64;
+    let mut maxk = -1i64;
+    let mut sum = 0i64;
+    for (k, g) in &f.glyphs {
+        let kv = cell_code(k) as i64;
+        if !is_scalar(kv as u32) {
+            invalid += 1;
+        }
+        if h >= 3 && glyph_index(&g.data) != kv {
+            wrong += 1;
+        }
+        maxk = maxk.max(kv);
+        sum = (sum + kv) % (1 << 31);
+    }
+    let chunk_diff = |bytes: &[u8]| -> i64 {
+        if h == 0 {
+            return 0;
+        }
+        let mut d = 0;
+        for (i, c) in bytes.chunks(h).enumerate() {
+            let want = data.get(i * h..(i + 1) * h);
+            if want != Some(c) {
+                d += 1;
+            }
+        }
+        d
+    };
+    let u8d = f.convert_to_u8_data();
+    let psf = f.to_psf2_bytes().unwrap_or_default();
+    let body = if psf.len() >= 32 { &psf[32..] } else { &psf[..] };
+    vec![
+        0,
+        f.length as i64,
+        f.glyphs.len() as i64,
+        invalid,
+        wrong,
+        maxk,
+        sum,
+        u8d.len() as i64,
+        chunk_diff(&u8d),
+        psf.len() as i64,
+        chunk_diff(body),
+        str_ok(&f.name),
+    ]
+}
+
+/// `ESC P <dcs> ESC \` then `CSI 1 * z` on a 250-column terminal buffer: the macro body is printed on row 0.
+/// -> [errors while defining, errors while invoking, invalid cells, caret x, the first `caret x` cells of row 0]
+fn hexmacro(dcs: &str) -> Vec<i64> {
+    let (mut buf, mut caret, mut p) = term(250, 25);
+    let e1 = feed(&mut p, &mut buf, &mut caret, &format!("\x1bP{dcs}\x1b\\"));
+    let e2 = feed(&mut p, &mut buf, &mut caret, "\x1b[1*z");
+    let x = caret.get_position().x.max(0) as usize;
+    let mut v = vec![e1, e2, invalid_cells(&buf), x as i64];
+    if let Some(line) = buf.layers[0].lines.first() {
+        v.extend(line.chars.iter().take(x).map(|c| cell_code(&c.ch) as i64));
+    }
+    v
+}
+
+/// any character stream through the ANSI parser -> [errors, invalid cells, cells]
+fn stream(s: &str) -> Vec<i64> {
+    let (mut buf, mut caret, mut p) = term(80, 25);
+    let errs = feed(&mut p, &mut buf, &mut caret, s);
+    let cells: usize = buf.layers.iter().map(|l| l.lines.iter().map(|ln| ln.chars.len()).sum::<usize>()).sum();
+    vec![errs, invalid_cells(&buf), cells as i64]
+}
+
+/// any character stream through one of the other parsers -> [errors, invalid cells, cells]
+fn other_parser(name: &str, s: &str) -> Vec<i64> {
+    let mut p: Box<dyn BufferParser> = match name {
+        "ascii" => Box::<icy_engine::ascii::Parser>::default(),
+        "atascii" => Box::<icy_engine::atascii::Parser>::default(),
+        "avatar" => Box::<icy_engine::avatar::Parser>::default(),
+        "ctrla" => Box::<icy_engine::ctrla::Parser>::default(),
+        "mode7" => Box::<icy_engine::mode7::Parser>::default(),
+        "pcboard" => Box::<icy_engine::pcboard::Parser>::default(),
+        "petscii" => Box::<icy_engine::petscii::Parser>::default(),
+        "renegade" => Box::<icy_engine::renegade::Parser>::default(),
+        _ => Box::<icy_engine::viewdata::Parser>::default(),
+    };
+    let mut buf = Buffer::new((80, 25));
+    buf.is_terminal_buffer = true;
+    let mut caret = Caret::default();
+    let mut errs = 0;
+    for ch in s.chars() {
+        if p.print_char(&mut buf, 0, &mut caret, ch).is_err() {
+            errs += 1;
+        }
+    }
+    let cells: usize = buf.layers.iter().map(|l| l.lines.iter().map(|ln| ln.chars.len()).sum::<usize>()).sum();
+    vec![errs, invalid_cells(&buf), cells as i64]
+}
+
+/// save/load round trips through the native format with cells chosen by the case:
+/// cells = (x, y, code, attr) quadruples -> [0 saved+loaded | 1 load error, invalid cells, invalid strings]
+fn icyrt(title: &str, w: i32, h: i32, cells: &[i64]) -> Vec<i64> {
+    let mut buf = Buffer::new((w, h));
+    buf.is_terminal_buffer = false;
+    buf.layers[0].properties.title = title.to_string();
+    for q in cells.chunks(4) {
+        let Some(ch) = char::from_u32(q[2] as u32) else { continue };
+        let mut attribute = TextAttribute::default();
+        attribute.attr = q[3] as u16;
+        buf.layers[0].set_char((q[0] as i32, q[1] as i32), AttributedChar { ch, attribute });
+    }
+    let mut opt = SaveOptions::new();
+    opt.compress = false;
+    let bytes = match buf.to_bytes("icy", &opt) {
+        Ok(b) => b,
+        Err(_) => return vec![2],
+    };
+    match Buffer::from_bytes(Path::new("a.icy"), true, &bytes) {
+        Err(_) => vec![1],
+        Ok(b) => vec![0, invalid_cells(&b), invalid_strings(&b)],
+    }
+}
+
+pub fn run(kind: &str, args: &[&str]) -> Option<Obs> {
+    Some(match kind {
+        // the std functions the model of the String sites stands on: [from_utf8 ok, from_utf8_lossy bytes…]
+        "c10utf8" => {
+            let b = unhex(args[0]);
+            let mut v = vec![std::str::from_utf8(&b).is_ok() as i64];
+            v.extend(String::from_utf8_lossy(&b).as_bytes().iter().map(|x| *x as i64));
+            Ok(v)
+        }
+        // char::from_u32 itself: [1, c] | [0]
+        "c10char" => {
+            let x: u32 = args[0].parse().unwrap();
+            Ok(match char::from_u32(x) {
+                Some(c) => vec![1, c as u32 as i64],
+                None => vec![0],
+            })
+        }
+        "c10fill" => Ok(fill(&String::from_utf8(unhex(args[0])).unwrap())),
+        "c10clip" => Ok(clip(&unhex(args[0]))),
+        "c10clipsweep" => Ok(clip_sweep()),
+        "c10icy" => Ok(icy(&unhex(args[0]))),
+        "c10font" => Ok(font(args[0], args[1].parse().unwrap(), args[2].parse().unwrap(), args[3].parse().unwrap())),
+        "c10hexmacro" => Ok(hexmacro(&String::from_utf8(unhex(args[0])).unwrap())),
+        "c10stream" => Ok(stream(&String::from_utf8(unhex(args[0])).unwrap())),
+        "c10parser" => Ok(other_parser(args[0], &String::from_utf8(unhex(args[1])).unwrap())),
+        "c10icyrt" => {
+            let title = String::from_utf8(unhex(args[0])).unwrap();
+            let nums: Vec<i64> = args[3..].iter().map(|s| s.parse().unwrap()).collect();
+            Ok(icyrt(&title, args[1].parse().unwrap(), args[2].parse().unwrap(), &nums))
+        }
+        _ => return None,
+    })
 }
